@@ -42,7 +42,7 @@ MUT = {
     "physical-as-standard-in-checkBounds": lambda i, s: sub1(r"return -(\d+);", r"return \1;", s) if i == "c" else s,
     "nargs-check-dropped": lambda i, s: sub1(r"if\(mfront_nargs!= \d+\)\{", "if(false){", s) if i == "generic" else s,
     # ---- C45 (material properties and behaviours)
-    "parameter-default-symbol-scaled": lambda i, s: re.sub(r"(_ParameterDefaultValue, )([-0-9.e+]+)\)", lambda m: "%s%r)" % (m.group(1), float(m.group(2)) * 2), s),
+    "parameter-default-symbol-scaled": lambda i, s: re.sub(r"(_ParameterDefaultValue, )([-0-9.e+]+)\)", lambda m: m.group(0) if abs(float(m.group(2))) > 1e300 else "%s%r)" % (m.group(1), float(m.group(2)) * 2), s),
     "lower-bound-symbol-dropped": lambda i, s: sub1(r"MFRONT_EXPORT_SYMBOL\(long double, \w+_LowerBound,[^\n]*\n", "", s),
     "upper-physical-bound-symbol-shifted": lambda i, s: sub1(r"(_UpperPhysicalBound, static_cast<long double>\()([-0-9.e+]+)\)", lambda m: "%s%r)" % (m.group(1), float(m.group(2)) + 1), s),
     "names-array-swapped": lambda i, s: sub1(r'(_args, \d+,\s*MFRONT_EXPORT_ARRAY_ARGUMENTS\()"([^"]+)",\s*"([^"]+)"', r'\1"\3","\2"', s),
